@@ -238,7 +238,7 @@ Definition shape_rule (nc : option nat) (d : nat) (lowrank_allowed : bool) (k dd
   Nat.eqb dd d &&
   match nc with
   | Some c => Nat.eqb k c
-  | None => if lowrank_allowed then (k <=? d) && (0 <? k) else Nat.eqb k d
+  | None => if lowrank_allowed then (k <=? d) else Nat.eqb k d   (* SCML: as many rows as active bases, possibly none *)
   end.
 Definition c03_case (nc : option nat) (d : nat) (lowrank_allowed : bool) (k dd : nat)
     (kind_float finite returns_self : bool) (nfi n_in n_out k_out : nat) (M : list (list Q)) : bool :=
